@@ -442,12 +442,18 @@ func runFlow(oc *fw.Outcome, fc fcase) {
 	}
 	for ti := fc.From; ti < fc.To && ti < len(toks); ti += fc.Stride {
 		off := toks[ti].off
+		if toks[ti].prev == "OPEN_LONG_STRING" || toks[ti].typ == "CLOSE_LONG_STRING" {
+			continue // inside a long string literal: not a token boundary of the program text
+		}
 		for _, style := range []string{"/*", "//", "#"} {
 			c := render.NewPlainComment(r, ti)
 			c.Style = style
 			ins := c.String() + " "
 			if style != "/*" {
 				ins = c.String() + "\n"
+			}
+			if off > 0 && p.VCL[off-1] == '/' {
+				ins = " " + ins // "/" followed by "/*" or "//" would read as a line comment that swallows the operator
 			}
 			check(p.VCL[:off]+ins+p.VCL[off:], fmt.Sprintf("comment %q before token %d", c.String(), ti), styleName(c), ti)
 			oc.Tag("flow-boundary:" + toks[ti].prev + "|" + toks[ti].typ)
@@ -467,7 +473,7 @@ func runFlow(oc *fw.Outcome, fc fcase) {
 				sb.WriteString(p.VCL[last:ws])
 				run := p.VCL[ws:t.off]
 				switch {
-				case run == "":
+				case run == "", t.prev == "OPEN_LONG_STRING", t.typ == "CLOSE_LONG_STRING":
 				case strings.Contains(run, "\n"):
 					run = []string{"\n", "\r\n", "\n\n", " \n\t", "\n    ", "\n\n\n"}[r.Intn(6)]
 				default:
